@@ -18,6 +18,10 @@ type Op struct {
 	Payload string `json:"payload,omitempty"`
 	Peer    uint64 `json:"peer,omitempty"`
 	Will    bool   `json:"will,omitempty"`
+	// BadID (sess.create): the client identifier is not valid UTF-8, as a client may send it
+	// (the decoder hands the bytes through). The record cannot be serialised; the operation
+	// has to be refused without leaving a trace (model: no effect).
+	BadID bool `json:"bad_id,omitempty"`
 }
 
 // Pools of names; everything lives in mount point "mp" (the broker always prefixes).
@@ -41,7 +45,11 @@ func will(op Op) *packet.Publish {
 func Apply(n *Node, op Op) error {
 	switch op.Op {
 	case "sess.create":
-		return n.State.SessionMetadatas().Create(SessID(op.Sess), ClientID(op.Sess), 1000+int64(op.Sess), will(op), "mp")
+		cid := ClientID(op.Sess)
+		if op.BadID {
+			cid = "client-\xff\xfe"
+		}
+		return n.State.SessionMetadatas().Create(SessID(op.Sess), cid, 1000+int64(op.Sess), will(op), "mp")
 	case "sess.delete":
 		return n.State.SessionMetadatas().Delete(SessID(op.Sess))
 	case "sess.delpeer":
@@ -84,7 +92,7 @@ func (m *Sem) Apply(self uint64, op Op) (touched []string) {
 	sid := SessID(op.Sess)
 	switch op.Op {
 	case "sess.create":
-		if _, ok := m.Sess[sid]; ok {
+		if _, ok := m.Sess[sid]; ok || op.BadID {
 			return nil // refused
 		}
 		lwt := "-"
@@ -172,7 +180,7 @@ func GenOp(t *rapid.T, nSess, nFilters, nTopics int, peers []uint64, bulk bool) 
 	}
 	switch x := rapid.IntRange(0, hi).Draw(t, "op"); x {
 	case 0:
-		return Op{Op: "sess.create", Sess: rapid.IntRange(0, nSess-1).Draw(t, "sess"), Will: rapid.Bool().Draw(t, "will")}
+		return Op{Op: "sess.create", Sess: rapid.IntRange(0, nSess-1).Draw(t, "sess"), Will: rapid.Bool().Draw(t, "will"), BadID: rapid.IntRange(0, 9).Draw(t, "badID") == 0}
 	case 1:
 		return Op{Op: "sess.delete", Sess: rapid.IntRange(0, nSess-1).Draw(t, "sess")}
 	case 2, 3, 4:
